@@ -331,11 +331,11 @@ fn pure_case(child: bool) -> BoxedStrategy<PureCase> {
 pub fn run(ctx: &Ctx) {
     ctx.set_rule("metamorphic: observed call = keygen(hash, params, seed) or sign(hash, key bytes, message); reference = the bare call through the byte-level function in a fresh thread (or in a fresh child process); the same call is repeated after a generated context (0..5 unrelated operations: keygen with the SAME seed but other parameters / other hash, keygen and sign with other keys, signing other states of the same key with accepting and rejecting callbacks, verification of garbage, failing sign, sign with aux), through a generated entry point (hbs_lms::sign / SigningKey::try_sign / try_sign_with_aux(None); keygen with and without an aux buffer), placed in the same thread, a fresh thread, next to 7 threads running other operations, or compared across processes; all outputs must be byte-identical. Reload chain: SigningKey kept in memory for k signatures vs. bytes persisted and re-parsed before every signature. Non-trivial = the context has >= 1 unrelated operation or another thread/process is involved; distinct by serialized case.");
     ctx.assume("thread interleavings are sampled (16 harness workers + 7 noise threads), not enumerated");
-    let cases = ctx.tier.pick(320u32, 5_000u32);
+    let cases = ctx.tier.pick(800u32, 6_000u32);
     ctx.random("context_independence", &|| pure_case(false), cases, Opts { shrink_iters: 100, ..Opts::default() }, check_pure);
-    let child_cases = ctx.tier.pick(24u32, 300u32);
+    let child_cases = ctx.tier.pick(48u32, 400u32);
     ctx.random("cross_process", &|| pure_case(true), child_cases, Opts { shrink_iters: 20, workers: 8 }, check_pure);
-    let rc = ctx.tier.pick(120u32, 2_000u32);
+    let rc = ctx.tier.pick(300u32, 2_500u32);
     ctx.random(
         "reload_chain",
         &|| {
